@@ -213,7 +213,12 @@ class Ctx:
         """run tools/harness/<script> in the repo's python; JSON in (stdin) / JSON out (last line)"""
         path = os.path.join(VERIF, 'tools', 'harness', script)
         t = time.time()
-        rc, out = sh([PY, path], timeout=timeout, input=json.dumps(payload), cwd=VERIF)
+        # every harness process reports the source lines of the package it executed (lib/covtie.py)
+        self._ncov = getattr(self, '_ncov', 0) + 1
+        wrap = os.path.join(VERIF, 'tools', 'harness', '_covwrap.py')
+        cov_env = {'VERIF_COV_ROOT': os.path.join(REPO, 'src', 'scippneutron'),
+                   'VERIF_COV_OUT': os.path.join(self.build, f'cov_{self._ncov}.json')}
+        rc, out = sh([PY, wrap, path], timeout=timeout, input=json.dumps(payload), cwd=VERIF, env=cov_env)
         print(f'[impl] {script} ({time.time() - t:.1f}s)')
         out = clean_out(out)
         lines = [l for l in out.splitlines() if l.startswith('RESULT ')]
@@ -466,10 +471,17 @@ def main(argv):
     ap.add_argument('--tier', default=os.environ.get('VERIF_TIER', 'quick'))
     ap.add_argument('--seed', type=int, default=int(os.environ.get('VERIF_SEED', '20260929')))
     ap.add_argument('--replay')
+    ap.add_argument('--pin-stmts', action='store_true',
+                    help='(re)generate tools/corpus/stmt_pins/<prop>.json from the anchored files of the repo and exit')
     a = ap.parse_args(argv)
     sys.path.insert(0, os.path.join(VERIF, 'props'))
     mod = importlib.import_module(a.prop)
     ctx = Ctx(mod, a.tier if a.tier in ('quick', 'thorough') else 'quick', a.seed)
+    if a.pin_stmts:
+        import covtie
+        pin = covtie.make_pin(VERIF, REPO, mod.ID, mod)
+        print(f'[pin] {mod.ID}: ' + ', '.join(f'{f} ({sum(len(v) for v in d.values())} statements)' for f, d in pin.items()))
+        return 0
     if a.replay:
         obj = json.load(open(a.replay))
         return mod.replay(ctx, obj)
@@ -499,6 +511,19 @@ def main(argv):
         traceback.print_exc()
         ctx.violation('harness-crash', f'correspondence harness crashed: {ex}', {'error': str(ex)},
                       found_input=False)
+    try:
+        import covtie
+        cov_broken, cov_stats = covtie.check(VERIF, REPO, ctx.id, mod, ctx.build)
+        ctx.coverage.update(cov_stats)
+        if isinstance(cov_stats.get('exercise_tie'), dict):
+            if not cov_broken:
+                ctx.obligations.append(('exercise-tie', 'discharged', ''))
+            for n, d in cov_broken:
+                ctx.obligations.append((n, 'broken', d))
+                ctx.broken.append(n)
+                print(f'[tie] {d}')
+    except Exception as ex:
+        ctx.note(f'exercise tie not evaluated: {ex}')
     if ctx.broken:
         found = []
         try:
